@@ -15,6 +15,7 @@
 """ Majority gate """
 
 from itertools import combinations
+from math import comb as binomial
 import numpy as np
 
 
@@ -27,13 +28,14 @@ def operate(circuit, controls, target):
     n_min = int(np.ceil(size_controls / 2))
     n_max = 2**log_n
 
-    n_controls = [n_min]
-
-    if n_min != n_max:
-        if n_min % 2 != 0:
-            n_controls.extend(range(n_min + 1, n_max))
-
-        n_controls.append(n_max)
+    # Degrees of the algebraic normal form of the threshold function: taking
+    # the weights in increasing order, degree w is needed exactly when the
+    # parity of the terms selected so far is wrong for inputs of weight w.
+    n_controls = []
+    for weight in range(size_controls + 1):
+        parity = sum(binomial(weight, k) for k in n_controls) % 2
+        if parity != int(weight >= n_min):
+            n_controls.append(weight)
 
     for k in n_controls:
         comb = combinations(controls, k)
